@@ -93,6 +93,9 @@ func (in *Interp) b64Decode(kind string, s *Str) (*Str, bool) {
 		if s.G.Ctor == "b64x" && s.G.Args[1].(string) == kind {
 			return s.G.Args[0].(*Str), true
 		}
+		if s.G.Ctor == "b64alt" && kind == "RawURLEncoding" {
+			return s.G.Args[0].(*Str), true // non-canonical text, same bytes (the decoder ignores unused low bits)
+		}
 		if s.G.Ctor == "malformed" {
 			return nil, false
 		}
